@@ -26,7 +26,8 @@ def program(rng):
         "n += bump_n(%(a)d);\nprint(n);",
         "n = n + bump_n(%(a)d) + n;\nprint(n);",
         "c.x += set_c(%(a)d);\nprint(c.x);",
-        "v[0] += set_v0(%(a)d);\nprint(v);",
+        "v[0] = v[0] + set_v0(%(a)d);\nprint(v);",
+        "v[v.len() - 1] = push_v(%(a)d) + v.len();\nprint(v);",
         "print(n < bump_n(%(a)d));\nprint(n);",
         "print(n..bump_n(%(a)d) + n);",
         "print(v[v.len() - 1] + push_v(%(a)d) + v[v.len() - 1]);",
